@@ -457,6 +457,9 @@ def mutate_value(v, rng, p=0.5):
         return dict(v, members=[dict(m, value=mutate_value(m.get('value'), rng, p)) for m in v.get('members', [])])
     if n == 'array':
         return dict(v, elements=[dict(e, value=mutate_value(e.get('value'), rng, p)) for e in v.get('elements', [])])
+    if n == 'union':
+        m = v.get('member', {})
+        return dict(v, member=dict(m, value=mutate_value(m.get('value'), rng, p)))
     if n == 'integer':
         if rng.random() > p: return v
         t = v.get('type', '')
